@@ -1,6 +1,7 @@
 package main
 
 import (
+	"time"
 	"fmt"
 	"math"
 	"sort"
@@ -317,6 +318,64 @@ func longListScenario(random bool, n int) *vsched.Scenario {
 	}
 }
 
+// nestedScenario: "for every function f" includes an f that itself calls PMap (a re-entrant f): the outer call
+// over `outer` elements (no pool size: one goroutine per element) maps each element through an inner PMap over
+// `inner` elements. Small sizes are explored like the other scenarios; the large one is a declared smoke run
+// (default schedule) - any process-wide limit on PMap goroutines that an outer call can exhaust shows there.
+func nestedScenario(outer, inner int, random bool, bound int, firstOnly bool) *vsched.Scenario {
+	fam := "pmap-nested"
+	var sum, count int
+	return &vsched.Scenario{
+		Name:      fmt.Sprintf("pmap/nested/outer%d/inner%d/random=%v", outer, inner, random),
+		Bound:     bound,
+		FirstOnly: firstOnly,
+		MaxSteps:  20000000,
+		Body: func() {
+			sum, count = 0, -1
+			list := make([]int, outer)
+			for i := range list {
+				list[i] = i + 1
+			}
+			in := make([]int, inner)
+			for i := range in {
+				in[i] = i + 1
+			}
+			var opt *fpgo.PMapOption
+			if random {
+				opt = &fpgo.PMapOption{RandomOrder: true}
+			}
+			res := fpgo.PMap(func(v int) int {
+				// (f takes a little virtual time before it maps its own list: every outer goroutine that has an
+				// element is inside f by then, as it would be on a machine with enough processors)
+				time.Sleep(time.Millisecond)
+				t := 0
+				for _, w := range fpgo.PMap(func(u int) int { return u * v }, opt, in...) {
+					t += w
+				}
+				return t
+			}, opt, list...)
+			count = len(res)
+			for _, v := range res {
+				sum += v
+			}
+		},
+		Check: func(r *vsched.Result) []vsched.Failure {
+			fs := e1.Basic("C16", fam, r, nil)
+			if len(fs) > 0 {
+				return fs
+			}
+			if r.Cap != "" {
+				return append(fs, e1.Fail("C16|"+fam+"|no-termination", "the nested PMap had not returned after %s", r.Cap))
+			}
+			want := (outer * (outer + 1) / 2) * (inner * (inner + 1) / 2)
+			if count != outer || sum != want {
+				fs = append(fs, e1.Fail("C16|"+fam+"|result", "nested PMap (%d x %d) returned %d elements with sum %d, expected %d elements with sum %d", outer, inner, count, sum, outer, want))
+			}
+			return fs
+		},
+	}
+}
+
 // shapeSweepScenario: every (list length, pool size) pair up to a bound, one default-schedule run each (a
 // declared smoke run): how the work is divided among the workers is arithmetic on the two numbers, and an
 // uneven division (5 elements over 4 workers) is a shape the exhaustively explored small lists do not have.
@@ -376,7 +435,12 @@ func scenarios(tier string) []*vsched.Scenario {
 	if tier == "thorough" {
 		maxLen, b, longN = 4, 3, 70000
 	}
-	out = append(out, sharedOptionScenario(false, 2), sharedOptionScenario(true, 2), payloadScenario(false, 0), payloadScenario(true, 0), longListScenario(false, longN), longListScenario(true, longN), shapeSweepScenario(false, 33), shapeSweepScenario(true, 33))
+	out = append(out, sharedOptionScenario(false, 2), sharedOptionScenario(true, 2), payloadScenario(false, 0), payloadScenario(true, 0), longListScenario(false, longN), longListScenario(true, longN), shapeSweepScenario(false, 33), shapeSweepScenario(true, 33),
+		nestedScenario(2, 1, false, 1, false), nestedScenario(2, 1, true, 1, false))
+	if tier == "thorough" {
+		// more outer goroutines than any plausible process-wide cap (two default-schedule smoke runs of ~5000 threads)
+		out = append(out, nestedScenario(1100, 1, false, 0, true), nestedScenario(1100, 1, true, 0, true))
+	}
 	for _, pool := range []int{1, 2} {
 		out = append(out, twoCallsScenario(false, pool, 1), twoCallsScenario(true, pool, 1))
 	}
